@@ -336,6 +336,9 @@ def gen_stream(tier, rng, frontends=("pandas", "numpy", "netcdf", "xarray"), fau
         time, col = gen_table(rng, n)
         has_time = rng.random() < 0.9
         axes = {ax: (col() if rng.random() < 0.6 else None) for ax in ("z", "lat", "lon")}
+        for ax in axes:
+            if axes[ax] is not None and rng.random() < 0.2:
+                axes[ax] = ["0"] * n                      # falsy values: depth 0, equator, Greenwich
         cols = [["v1", col()]] + ([["v2", col()]] if rng.random() < 0.5 else [])
         idx_kind = rng.choice(["default", "default", "default", "offset", "reversed", "shuffled"])
         index = list(range(n))
